@@ -11,6 +11,7 @@ mod rawclient;
 mod rawpeer;
 mod rec_backend;
 mod refpred;
+mod sched;
 mod spec;
 mod srv;
 mod stream;
